@@ -305,6 +305,81 @@ def _re_flags(node) -> int:
     raise AnalysisError(f"regex flags `{U(node)}` not understood")
 
 
+def _const_text(repo, node, depth=0):
+    """Value of an expression built from literals, f-strings and module-level constants of xrefs.py / constants.py
+    (``len``, ``str``, ``int`` and + - * of such values included), or None."""
+    if depth > 6:
+        return None
+    if isinstance(node, ast.Constant):
+        return node.value
+    if isinstance(node, ast.JoinedStr):
+        out = ""
+        for v in node.values:
+            if isinstance(v, ast.Constant):
+                out += str(v.value)
+            elif isinstance(v, ast.FormattedValue) and v.format_spec is None and v.conversion == -1:
+                x = _const_text(repo, v.value, depth + 1)
+                if x is None:
+                    return None
+                out += str(x)
+            else:
+                return None
+        return out
+    if isinstance(node, ast.Name):
+        if node.id in repo.consts:
+            return repo.consts[node.id]
+        try:
+            return _const_text(repo, repo.module_assign("xrefs.py", node.id), depth + 1)
+        except AnalysisError:
+            return None
+    if isinstance(node, ast.BinOp) and isinstance(node.op, (ast.Add, ast.Sub, ast.Mult)):
+        a, b = _const_text(repo, node.left, depth + 1), _const_text(repo, node.right, depth + 1)
+        if a is None or b is None:
+            return None
+        try:
+            return a + b if isinstance(node.op, ast.Add) else a - b if isinstance(node.op, ast.Sub) else a * b
+        except TypeError:
+            return None
+    if isinstance(node, ast.Call) and isinstance(node.func, ast.Name) and node.func.id in ("len", "str", "int") and len(node.args) == 1 and not node.keywords:
+        a = _const_text(repo, node.args[0], depth + 1)
+        if a is None:
+            return None
+        try:
+            return {"len": len, "str": str, "int": int}[node.func.id](a)
+        except (TypeError, ValueError):
+            return None
+    return None
+
+
+def _group_repeats(pattern: str, flags: int):
+    """group number -> (min, max) repetitions of the single repeated item the group consists of (max None = unbounded);
+    groups of another shape are left out."""
+    import re._constants as rc
+    import re._parser as rp
+
+    out = {}
+
+    def walk(items):
+        for op, av in items:
+            if op == rc.SUBPATTERN:
+                g, _add, _del, sub = av
+                sub = list(sub)
+                if g is not None and len(sub) == 1 and sub[0][0] in (rc.MAX_REPEAT, rc.MIN_REPEAT):
+                    lo, hi, _ = sub[0][1]
+                    out[g] = (lo, None if hi == rc.MAXREPEAT else hi)
+                elif g is not None and len(sub) == 1:
+                    out[g] = (1, 1)
+                walk(sub)
+            elif op in (rc.MAX_REPEAT, rc.MIN_REPEAT):
+                walk(list(av[2]))
+            elif op == rc.BRANCH:
+                for br in av[1]:
+                    walk(list(br))
+
+    walk(list(rp.parse(pattern, flags)))
+    return out
+
+
 def _group_alphabets(pattern: str, flags: int):
     """group number -> set of code points a character of the group may be ('digit' for the \\d category)."""
     import re._constants as rc
@@ -373,15 +448,17 @@ def check_a1_alphabet(repo, rep):
     subject_upper = ".upper()" in U(mcall.args[0]) if mcall.args else False
     rx_name = U(mcall.func.value)
     rx = repo.module_assign("xrefs.py", rx_name)
-    if not (isinstance(rx, ast.Call) and U(rx.func) == "re.compile" and isinstance(try_const(rx.args[0]), str)):
-        raise AnalysisError(f"xrefs.py: {rx_name} is not re.compile(<literal>)")
+    pattern = _const_text(repo, rx.args[0]) if isinstance(rx, ast.Call) and U(rx.func) == "re.compile" and rx.args else None
+    if not isinstance(pattern, str):
+        raise AnalysisError(f"xrefs.py: {rx_name} is not re.compile(<pattern built from literals and module constants>)")
     flags = 0
     if len(rx.args) > 1:
         flags |= _re_flags(rx.args[1])
     for kw in rx.keywords:
         if kw.arg == "flags":
             flags |= _re_flags(kw.value)
-    groups = _group_alphabets(try_const(rx.args[0]), flags)
+    groups = _group_alphabets(pattern, flags)
+    repeats = _group_repeats(pattern, flags)
 
     def group_of(expr):
         """(group number, upper-cased?) of an expression that is match.group(k) possibly through one local."""
@@ -443,6 +520,23 @@ def check_a1_alphabet(repo, rep):
     ok = len(row_groups) == 1 and row_groups[0] in groups and groups[row_groups[0]] <= ({"digit"} | set(range(48, 58))) and row_groups[0] != k
     rep.ob("C11.R1", ints[0] if ints else fn, f"row number parsed from the digit group {row_groups} of {rx_name}", ok,
            "" if ok else "int() is not applied to the digit group of the reference", key="C11.R1@a1:row-group")
+    # the groups are wide enough for every position the library allows (rows are one-based in A1 notation)
+    max_rows, max_cols = repo.consts.get("MAX_ROW_COUNT"), repo.consts.get("MAX_COL_COUNT")
+    if isinstance(max_rows, int) and row_groups and row_groups[0] in repeats:
+        lo_r, hi_r = repeats[row_groups[0]]
+        need = len(str(max_rows))
+        ok = hi_r is None or hi_r >= need
+        rep.ob("C11.R1", rx, f"{rx_name}: the row group takes up to {hi_r or 'any number of'} digits; row {max_rows} needs {need}", ok,
+               "" if ok else f"the last rows (numbers with {need} digits) lose a digit: the pattern is not anchored at the end, so `A{max_rows}` is read as row {str(max_rows)[:hi_r]} "
+               "and the A1 form reaches another cell than the row/column form", key="C11.R1@a1:row-digits")
+    if isinstance(max_cols, int) and k in repeats:
+        lo_c, hi_c = repeats[k]
+        need_c = 1
+        while sum(26 ** i for i in range(1, need_c + 1)) < max_cols:
+            need_c += 1
+        ok = hi_c is None or hi_c >= need_c
+        rep.ob("C11.R1", rx, f"{rx_name}: the column group takes up to {hi_c or 'any number of'} letters; column {max_cols} needs {need_c}", ok,
+               "" if ok else f"columns beyond {sum(26 ** i for i in range(1, (hi_c or 0) + 1))} cannot be written in A1 form", key="C11.R1@a1:col-letters")
     # the match is anchored on the argument itself
     ok = bool(mcall.args) and U(mcall.args[0]).replace(".upper()", "") == param
     rep.ob("C11.R1", mcall, f"{rx_name} is matched against the reference `{param}`", ok, "", key="C11.R1@a1:subject")
@@ -463,6 +557,9 @@ def check_bounds(rep, ga, sub, r_txt, c_txt, where, nrows, ncols):
 
 _ITER_OLD = "        min_row = 0 if min_row is None else min_row\n        max_row = self.num_rows - 1 if max_row is None else max_row\n"
 VARIANTS = [
+    M("a1-row-digits-bounded-short", "xrefs.py", 'range_parts = re.compile(r"(\\$?)([A-Z]{1,3})(\\$?)(\\d+)")', 'range_parts = re.compile(r"(\\$?)([A-Z]{1,3})(\\$?)(\\d{1,6})")', "C11.R1"),
+    M("a1-col-letters-two", "xrefs.py", 'range_parts = re.compile(r"(\\$?)([A-Z]{1,3})(\\$?)(\\d+)")', 'range_parts = re.compile(r"(\\$?)([A-Z]{1,2})(\\$?)(\\d+)")', "C11.R1"),
+    T("a1-row-digits-bounded-enough", "xrefs.py", 'range_parts = re.compile(r"(\\$?)([A-Z]{1,3})(\\$?)(\\d+)")', 'range_parts = re.compile(r"(\\$?)([A-Z]{1,3})(\\$?)(\\d{1,7})")'),
     M("revert-fix-negative-coords", "document.py", "        if row < 0 or col < 0:\n            msg = f\"invalid cell reference ({row}, {col})\"\n            raise IndexError(msg)\n", "", "C11.R2"),
     M("cell-drop-negative-row", "document.py", "if row >= self.num_rows or row < 0:", "if row >= self.num_rows:", "C11.R2"),
     M("cell-col-off-by-one", "document.py", "if col >= self.num_cols or col < 0:", "if col > self.num_cols or col < 0:", "C11.R2"),
